@@ -112,12 +112,22 @@ def run_config(cls, machine, nx, seed, nproc=None):
         for i in range(len(tab)):
             tasks.append((simvc.closure_key(tab[i]), (cls, machine, tn, i, nx, seed)))
     nslots = {tn: len(getattr(mach.sim, tn)) for tn in TABLES}
-    # identical closures next to each other (solver-result memo hits inside a worker)
-    tasks.sort(key=lambda t: t[0])
+    # longest-processing-time-first scheduling: the I/O and block-I/O closures have by far the most
+    # paths, then the conditional/stack forms; one task per dispatch so the pool stays balanced
+    def weight(key):
+        f = key.split('.')[1] if '.' in key else key
+        for names, w in ((('outi', 'ini'), 100), (('in_a', 'in_c', 'out_a', 'out_c'), 30), (('call', 'ex_sp', 'ldi', 'cpi', 'ret'), 10),
+                         (('jr', 'djnz', 'jp', 'halt', 'ld_a_ir', 'push', 'pop', 'rst', 'ld_mm_rr', 'ld_rr_mm'), 5)):
+            if f in names:
+                return w
+        return 1
+    tasks.sort(key=lambda t: -weight(t[0]))
     tasks = [t[1] for t in tasks]
     t0 = time.time()
     with Pool(nproc or common.NCPU) as p:
-        res = p.map(_work, tasks, chunksize=4)
+        res = list(p.imap_unordered(_work, tasks, chunksize=1))
+    order = {tn: k for k, tn in enumerate(TABLES)}
+    res.sort(key=lambda r: (order.get(r['table'], 9), r['index']))
     return {'cls': cls, 'machine': machine, 'slots': res, 'nslots': nslots, 'wall': time.time() - t0}
 
 
